@@ -435,10 +435,8 @@ class PVLEncoder(object):
         return f"{value.year:04d}-{value:%m-%d}"
 
     @staticmethod
-    def encode_time(value: datetime.time) -> str:
-        """Returns a ``str`` formatted as a PVL Time based
-        on the *value* object according to the rules of this encoder.
-        """
+    def _encode_hms(value: datetime.time) -> str:
+        # The time of day, with no regard for any time zone.
         s = f"{value:%H:%M}"
 
         if value.microsecond:
@@ -447,6 +445,22 @@ class PVLEncoder(object):
             s += f":{value:%S}"
 
         return s
+
+    @staticmethod
+    def encode_time(value: datetime.time) -> str:
+        """Returns a ``str`` formatted as a PVL Time based
+        on the *value* object according to the rules of this encoder.
+        """
+        # All PVL Date/Time Values are in UTC, there is no way to write
+        # another time zone, and silently dropping it changes the instant.
+        offset = value.utcoffset()
+        if offset is not None and offset != datetime.timedelta(0):
+            raise ValueError(
+                "PVL can only express times in UTC, and this one has a "
+                f"different time zone offset: {value}"
+            )
+
+        return PVLEncoder._encode_hms(value)
 
     def encode_datetime(self, value: datetime.datetime) -> str:
         """Returns a ``str`` formatted as a PVL Date/Time based
@@ -779,25 +793,30 @@ class ODLEncoder(PVLEncoder):
                 f"have a timezone offset: {value}"
             )
 
-        t = super().encode_time(value)
+        t = self._encode_hms(value)
 
         if value.utcoffset() == datetime.timedelta():
             return t + "Z"
         else:
-            td_str = str(value.utcoffset())
-            (h, m, s) = td_str.split(":")
-            if s != "00":
+            offset = value.utcoffset()
+            sign = "-" if offset < datetime.timedelta() else "+"
+            (minutes, rest) = divmod(abs(offset), datetime.timedelta(minutes=1))
+            if rest:
                 raise ValueError(
                     "The datetime value had a timezone offset "
                     f"with seconds values ({value}) which is "
                     "not allowed in ODL."
                 )
-            if m == "00":
-                return t + f"+{h:0>2}"
+            (h, m) = divmod(minutes, 60)
+            if h > 12:
+                raise ValueError(
+                    "ODL time zone offsets are limited to 12 hours, "
+                    f"this one is larger: {value}"
+                )
+            if m == 0:
+                return t + f"{sign}{h:02d}"
             else:
-                return t + f"+{h:0>2}:{m}"
-
-        return t
+                return t + f"{sign}{h:02d}:{m:02d}"
 
     def encode_units(self, value) -> str:
         """Overrides parent function since ODL limits what characters
